@@ -211,6 +211,11 @@ func (tg *txnGen) txn(maxOps int) []TOp {
 			return ops
 		}
 	}
+	if g.Chance(0.06) {
+		if ops := tg.readThenCollide(); len(ops) > 0 {
+			return ops
+		}
+	}
 	n := 1 + g.Intn(maxOps)
 	pending := map[string][]string{}
 	var ops []TOp
@@ -555,6 +560,61 @@ func (tg *txnGen) reinsert() []TOp {
 		}
 	}
 	return ops
+}
+
+// readThenCollide: a committed row is brought into the transaction by reading it (select, wait, an update that changes
+// nothing), then another row is given its value in a schema index: the transaction must be refused whatever was read.
+func (tg *txnGen) readThenCollide() []TOp {
+	g := tg.g
+	for _, ti := range g.R.Perm(len(tg.sc.Tables)) {
+		t := &tg.sc.Tables[ti]
+		us := tg.uuidsOf(t.Name)
+		if len(us) == 0 || len(t.Indexes) == 0 {
+			continue
+		}
+		u := us[g.Intn(len(us))]
+		b := tg.state[t.Name][u]
+		idx := t.Indexes[g.Intn(len(t.Indexes))]
+		byU := []Cond{{Col: "_uuid", Fn: "==", Arg: val.VA(val.Uuid(u))}}
+		var ops []TOp
+		switch g.Intn(4) {
+		case 0:
+			ops = append(ops, TOp{Kind: "select", Table: t.Name, Where: byU})
+		case 1:
+			ops = append(ops, TOp{Kind: "select", Table: t.Name, Where: []Cond{{Col: idx[0], Fn: "==", Arg: b[idx[0]]}}, Cols: []string{idx[0]}})
+		case 2:
+			same := map[string]val.Val{}
+			for _, cn := range idx {
+				same[cn] = b[cn]
+			}
+			ops = append(ops, TOp{Kind: "update", Table: t.Name, Where: byU, Row: same}) // changes nothing
+		default:
+			ops = append(ops, TOp{Kind: "wait", Table: t.Name, Where: byU, Cols: []string{idx[0]}, Until: "==", Rows: []map[string]val.Val{{idx[0]: b[idx[0]]}}})
+		}
+		row := map[string]val.Val{}
+		for _, cn := range idx {
+			row[cn] = b[cn]
+		}
+		if len(us) > 1 && g.Chance(0.4) {
+			other := us[(g.Intn(len(us)-1)+1+indexOf(us, u))%len(us)]
+			ops = append(ops, TOp{Kind: "update", Table: t.Name, Where: []Cond{{Col: "_uuid", Fn: "==", Arg: val.VA(val.Uuid(other))}}, Row: row})
+		} else if t.IsRoot {
+			ops = append(ops, TOp{Kind: "insert", Table: t.Name, UUID: tg.fresh(), Row: row})
+		} else {
+			continue
+		}
+		return ops
+	}
+	return nil
+}
+
+func indexOf(l []string, x string) int {
+	for i, y := range l {
+		if y == x {
+			return i
+		}
+	}
+	return 0
 }
 
 func (tg *txnGen) swap() []TOp {
